@@ -794,7 +794,15 @@ impl ServiceGenerator<'_> {
                         async move {
                             match resp.await? {
                                 #response_ident::#camel_case_idents(msg) => ::core::result::Result::Ok(msg),
-                                _ => ::core::unreachable!(),
+                                // The peer answered with another method's response type.
+                                _ => ::core::result::Result::Err(::tarpc::client::RpcError::Server(
+                                    ::tarpc::ServerError::new(
+                                        ::std::io::ErrorKind::InvalidData,
+                                        <::std::string::String as ::core::convert::From<&str>>::from(
+                                            "the response's type does not match the request",
+                                        ),
+                                    ),
+                                )),
                             }
                         }
                     }
